@@ -612,8 +612,12 @@ pub async fn c10(seed: u64, thorough: bool) {
                 continue;
             }
         }
-        let (ca, dela, _) = real_chunks(&cfg, &da, vec![], usize::MAX / 2).await;
-        let (cb, delb, _) = real_chunks(&cfg, &db, vec![], usize::MAX / 2).await;
+        // half of the pairs are delivered in pieces (each stream in its own pieces, with pending reads): the
+        // theorem is about the streaming chunker under any two deliveries
+        let (sa, dra) = if case % 2 == 1 { rand_script(&mut rng, da.len()) } else { (vec![], usize::MAX / 2) };
+        let (sb, drb) = if case % 2 == 1 { rand_script(&mut rng, db.len()) } else { (vec![], usize::MAX / 2) };
+        let (ca, dela, _) = real_chunks(&cfg, &da, sa, dra).await;
+        let (cb, delb, _) = real_chunks(&cfg, &db, sb, drb).await;
         let ra = format!("chunk {} {} {}", cfg.token(), segs_token(&a), h::join(&dela, ","));
         let rb = format!("chunk {} {} {}", cfg.token(), segs_token(&b), h::join(&delb, ","));
         h::emit_case(&ra, &chunks_token(&ca));
